@@ -138,7 +138,11 @@ def check_join(chk, prop, stratum, how, L, R, lnames, rnames, key_mode="name", e
 	elif key_mode == "external":
 		lon = [Vector(list(c)) for c in lkeycols]
 		ron = [Vector(list(c)) for c in rkeycols]
-	if len(lon) == 1 and single_as_scalar:
+	if len(lon) == 1 and single_as_scalar == "left-only":
+		lon = lon[0]      # a bare key on one side, a one-element list on the other
+	elif len(lon) == 1 and single_as_scalar == "right-only":
+		ron = ron[0]
+	elif len(lon) == 1 and single_as_scalar:
 		lon, ron = lon[0], ron[0]
 	before = (M.snap_table(L), M.snap_table(R))
 	fn = {"inner": L.inner_join, "left": L.join, "full": L.full_join}[how]
